@@ -43,9 +43,9 @@ def try_cli(smt2: str, cmd: list[str], timeout_s: int) -> str:
         os.unlink(path)
 
 
-def discharge(ob, axioms, second_opinion=True, retry=True) -> Verdict:
+def discharge(ob, axioms, second_opinion=True, retry=True, budget_ms=None) -> Verdict:
     t0 = time.time()
-    s = _mk_solver(axioms, ob.assumptions, ob.goal, Z3_MS)
+    s = _mk_solver(axioms, ob.assumptions, ob.goal, budget_ms or Z3_MS)
     r = s.check()
     ms = int((time.time() - t0) * 1000)
     if r == z3.unsat:
